@@ -33,14 +33,17 @@ theorem specRow_sum_open (b : Basis K) (hper : b.periodic = -1) (u : K) (f : ℕ
   rw [Finset.mem_range] at hj
   rw [Basis.specRow_nonperiodic hper, Nat.mod_eq_of_lt hj, dB_zero, mul_comm]
 
-/-- **`lower_periodic` on a curve, evaluator level.** -/
+/-- **`lower_periodic` on a curve, evaluator level.**  When the result is non-periodic
+(`target = -1`) the parameter list must be non-empty: the real code raises `ValueError` for `[]` in a
+non-periodic direction, while the periodic original accepts it. -/
 theorem lowerPeriodic_evaluate_curve {o : Obj K} {b1 : Basis K} (hb : o.bases = #[b1])
     (hv1 : b1.Valid) (k : ℕ) (hk : b1.periodic = (k : Int))
     (hguard : b1.order + k ≤ b1.numFunctions) {nc : ℕ}
     (hs : o.cps.shape = [b1.numFunctions, nc]) (hnc : o.rational = true → 1 ≤ nc)
     (hseam : b1.start < b1.kn b1.order) (target : Int) (h1 : -1 ≤ target) (h2 : target ≤ k)
     {tol : K} (htol : 0 < tol) {us : List K} (hus : ∀ u ∈ us, b1.Admissible tol u)
-    (hdom : target = -1 → ∀ u ∈ us, b1.start ≤ u ∧ u ≤ b1.stop) :
+    (hdom : target = -1 → ∀ u ∈ us, b1.start ≤ u ∧ u ≤ b1.stop)
+    (hne : target = -1 → us ≠ []) :
     ∃ o', o.lowerPeriodic target 0 = .ok o' ∧ LowerInv o o' 0 ((k : Int) - target).toNat ∧
       ((∀ u ∈ us, (o'.basis 0).Admissible tol u) →
         o'.evaluate tol [us] true = o.evaluate tol [us] true) := by
@@ -62,7 +65,7 @@ theorem lowerPeriodic_evaluate_curve {o : Obj K} {b1 : Basis K} (hb : o.bases = 
     rw [hI.shape_eq, hs, hI.num_eq, hb0]; rfl
   have hper : 0 ≤ b1.periodic := by rw [hk]; omega
   refine (transfer_curve hb hb'' hv1 hI.valid hs hs' hI.rational_eq hnc htol rfl hus hadm'
-    (fun p hp => ?_)).1
+    (fun p hp => ?_) (fun h => by omega) (fun h => hne (by rw [hpe] at h; omega))).1
   intro a i ha hi
   set u := us.getD p 0 with hu
   have humem : u ∈ us := by
